@@ -404,6 +404,22 @@ func c09Defects() []repDefect {
 			c.reqAddrs = []types.HostAddress{v4}
 			c.encCAddr = []types.HostAddress{v4, v6}
 		}},
+		{"reqaddrs+second-replaced", false, func(c *repCase, r *RNG) {
+			c.reqAddrs = []types.HostAddress{v4, v6}
+			c.encCAddr = []types.HostAddress{v4, v4b}
+		}},
+		{"reqaddrs+second-repeats-first", false, func(c *repCase, r *RNG) {
+			c.reqAddrs = []types.HostAddress{v4, v6}
+			c.encCAddr = []types.HostAddress{v4, v4}
+		}},
+		{"reqaddrs+last-of-three-replaced", false, func(c *repCase, r *RNG) {
+			c.reqAddrs = []types.HostAddress{v6, v4, v4b}
+			c.encCAddr = []types.HostAddress{v4, v6, {AddrType: 2, Address: []byte{10, 9, 8, 7}}}
+		}},
+		{"reqaddrs+first-replaced", false, func(c *repCase, r *RNG) {
+			c.reqAddrs = []types.HostAddress{v4, v6}
+			c.encCAddr = []types.HostAddress{v4b, v6}
+		}},
 		{"nonce+2^32", false, func(c *repCase, r *RNG) { c.encNonceOff = 1 << 32 }},
 		{"nonce-2^32", false, func(c *repCase, r *RNG) { c.encNonceOff = -(1 << 32) }},
 		{"nonce+3*2^32", false, func(c *repCase, r *RNG) { c.encNonceOff = 3 << 32 }},
@@ -572,6 +588,11 @@ func TestC09(t *testing.T) {
 	}
 	for _, et := range exEts {
 		c09Referral(t, m, v, rng, baseRep(true, et, "password"))
+		for _, r2 := range []string{"OTHER.REALM", "THIRD.REALM", "other.realm"} {
+			c := baseRep(true, et, "password")
+			c.secondCRealm = r2
+			c09Referral(t, m, v, rng, c)
+		}
 		for _, d := range defs {
 			if !exchangeSafe(d) || d.asOnly || d.name == "tktsname-other" || d.name == "tktsname-empty" || d.name == "encsname" || d.name == "encsname-short" {
 				continue
@@ -629,7 +650,15 @@ func c09Referral(t *testing.T, m *Model, v *Verdict, rng *RNG, c repCase) {
 				return reply
 			}
 			rq.crealm = c09Realm
+			if c.secondCRealm != "" {
+				// the realm referred to answers with another client realm (its own, say): that reply is judged
+				rq.crealm = c.secondCRealm
+			}
 			reply, _ := mintKDCRep(rng, baseRep(true, c.et, "password"), rq, refKey, nil, now)
+			if c.secondCRealm != "" && tgsSeen == 2 {
+				op = fmt.Sprintf("kr.tgs exchange %d %d %s %s %s %d %s %s %d %s %s", now.UnixNano()/1000, c.skew/time.Microsecond, XS(c09Realm), nameToks(rq.cname), XS(rq.realm),
+					rq.nonce, nameToks(tg.ReqBody.SName), addrToks(nil), refKey.KeyType, X(refKey.KeyValue), X(reply))
+			}
 			return reply
 		}
 		return nil
@@ -660,12 +689,15 @@ func c09Referral(t *testing.T, m *Model, v *Verdict, rng *RNG, c repCase) {
 	case len(f) > 1 && f[0] == "krberror":
 		want = "krberror " + f[1] + " 1"
 	}
+	if c.secondCRealm != "" && want == "err 1" {
+		want = "err 2" // the referral itself is in order and followed; the second reply is the one refused
+	}
 	got := fmt.Sprintf("%s %d", goRes, tgsSeen)
 	desc := fmt.Sprintf("referral/TGS/%d/%s", c.et, c.describe())
 	v.Case(desc, "exchange referral -> "+strings.Fields(goRes + " -")[0])
 	if got != want {
 		what, k := "the client's handling of a referral reply differs from the model's", "correspondence"
-		if strings.HasPrefix(goRes, "ok") || tgsSeen > 1 {
+		if strings.HasPrefix(goRes, "ok") || (tgsSeen > 1 && c.secondCRealm == "") {
 			what, k = "the client follows a referral whose reply does not answer its request (independent verifier: "+mo+")", "failing-input"
 		} else if strings.HasPrefix(goRes, "panic") {
 			what, k = "the client panicked on a referral reply", "failing-input"
